@@ -283,3 +283,95 @@ func rawSection(tableID uint8, syntax, private bool, ext uint16, version uint8, 
 	w.Bytes(body)
 	return ref.AppendCRC(w.Out())
 }
+
+// c14FuzzOne applies the structural oracles to arbitrary descriptor-loop bytes: parsing never panics; when it succeeds,
+// the (tag, length) sequence equals the independent structural walk (every descriptor accounts for exactly its declared
+// length, nothing is shifted) and the offset reached is the loop end; re-writing what was parsed yields a loop whose
+// lengths match the bytes emitted.
+func c14FuzzOne(data []byte) string {
+	if len(data) > 4095 {
+		data = data[:4095]
+	}
+	loop := append([]byte{0xf0 | byte(len(data)>>8), byte(len(data))}, data...)
+	buf := append(append([]byte{}, loop...), 0xaa, 0xbb)
+	ds, off, err := astits.VerifParseDescriptors(buf)
+	tags, bodies, _, werr := ref.WalkDescriptorLoop(loop)
+	if err != nil {
+		return ""
+	}
+	if werr != nil {
+		// the loop is structurally broken (a descriptor_length crosses the loop end: the two declared lengths contradict
+		// each other). The property does not say which one wins; only panic-freedom is demanded here.
+		return ""
+	}
+	if off != len(loop) {
+		return fmt.Sprintf("parseDescriptors stopped at %d, loop ends at %d: %x", off, len(loop), loop)
+	}
+	if len(ds) != len(tags) {
+		return fmt.Sprintf("%d descriptors parsed, the loop holds %d: %x", len(ds), len(tags), loop)
+	}
+	for i, d := range ds {
+		if d.Tag != tags[i] || int(d.Length) != len(bodies[i]) {
+			return fmt.Sprintf("descriptor %d parsed as tag %#x length %d, the loop holds tag %#x length %d (shifted): %x", i, d.Tag, d.Length, tags[i], len(bodies[i]), loop)
+		}
+	}
+	for _, d := range ds {
+		if len(ref.DescriptorBody(d)) > 255 {
+			// a malformed body can decode to a value that no descriptor can hold (e.g. a service name running past the
+			// declared length): outside the writer's domain
+			return ""
+		}
+	}
+	var out bytes.Buffer
+	n, err := astits.VerifWriteDescriptorsWithLength(&out, ds)
+	if err != nil {
+		return ""
+	}
+	if n != out.Len() {
+		return fmt.Sprintf("writeDescriptorsWithLength returned %d for %d bytes (parsed from %x)", n, out.Len(), loop)
+	}
+	if _, _, consumed, werr := ref.WalkDescriptorLoop(out.Bytes()); werr != nil || consumed != out.Len() {
+		return fmt.Sprintf("re-written loop is not well formed (%v, %d of %d): %x (parsed from %x)", werr, consumed, out.Len(), out.Bytes(), loop)
+	}
+	return ""
+}
+
+func FuzzC14(f *testing.F) {
+	f.Add([]byte{})
+	f.Add([]byte{0x0a, 0x04, 'e', 'n', 'g', 0x00})
+	f.Add([]byte{0x45, 0x05, 0x01, 0x03, 0xc1, 0xc2, 0xc3, 0x52, 0x01, 0x07})
+	f.Add([]byte{0x4e, 0x0c, 0x10, 'f', 'r', 'a', 0x04, 0x01, 'a', 0x01, 'b', 0x02, 'x', 'y'})
+	f.Add([]byte{0x7f, 0x06, 0x06, 0x85, 'e', 'n', 'g', 0x11, 0x58, 0x0d, 'F', 'R', 'A', 0x0b, 0x01, 0x00, 0xc0, 0x79, 0x12, 0x45, 0x00, 0x02, 0x00})
+	f.Add([]byte{0x28, 0x02, 0x64, 0xe0, 0x59, 0x04, 'a', 'b', 'c', 0x10})
+	f.Fuzz(func(t *testing.T, data []byte) {
+		if v := c14FuzzOne(data); v != "" {
+			t.Fatal(v)
+		}
+	})
+}
+
+func TestC14RandomBytes(t *testing.T) {
+	rec := obs.NewRecorder("C14", "random_loops", "rapid: arbitrary bytes and mutated valid loops as descriptor loop bodies: parseDescriptors must not panic; when it succeeds on a structurally sound loop the (tag, length) sequence equals the independent structural walk and the offset is the loop end; re-writing the parsed values gives a well-formed loop; non-trivial = parse succeeded with >= 2 descriptors; distinct by loop bytes")
+	defer rec.Flush()
+	rapid.Check(t, func(t *rapid.T) {
+		var data []byte
+		if gen.Bool(t, "mutated") {
+			data = ref.EncodeDescriptors(gen.Descriptors(t, 5, 600, "d"))
+			for i := rapid.IntRange(0, 5).Draw(t, "nmut"); i > 0 && len(data) > 0; i-- {
+				data[rapid.IntRange(0, len(data)-1).Draw(t, "pos")] = rapid.Byte().Draw(t, "val")
+			}
+		} else {
+			data = gen.Bytes(t, rapid.IntRange(0, 300).Draw(t, "n"), "raw")
+		}
+		if v := c14FuzzOne(data); v != "" {
+			t.Fatal(v)
+		}
+		loop := append([]byte{0xf0 | byte(len(data)>>8), byte(len(data))}, data...)
+		ds, _, err := astits.VerifParseDescriptors(loop)
+		h := obs.NewHasher()
+		h.Bytes(data)
+		rec.Case(h.Sum(), err == nil && len(ds) >= 2, func() interface{} {
+			return map[string]interface{}{"loop": hexHead(loop, 64), "descriptors": len(ds)}
+		})
+	})
+}
